@@ -205,6 +205,9 @@ def wbEnt (r : VRec) : Ent :=
 structure GcRun where
   fid : Nat
   wb : List VRec
+  /-- records (with their positions) the scan has not examined yet: non-empty only while the rewrite
+      is parked in the middle of its scan -/
+  rest : List (Nat × VRec) := []
   deriving Repr, Inhabited
 
 inductive GcErr | marked | nofile | norewrite
@@ -220,6 +223,28 @@ def GcDb.gcBegin (g : GcDb) (fid : Nat) : Except GcErr (GcDb × GcRun) :=
     else
       let g1 := { g with gcTs := g.db.lsm.maxVersion, gcActive := true }
       .ok (g1, { fid := fid, wb := gcScan g.db.lsm g.db.now f })
+
+/-- the scan over some of the records of file `fid` (given with their positions) -/
+def gcScanPart (lsm : Lsm) (now fid : Nat) (irs : List (Nat × VRec)) : List VRec :=
+  irs.filterMap (fun (i, r) => if gcMoves lsm now fid i r then some r else none)
+
+/-- `rewrite` parked after its scan has examined the first `k` records: the clamp is armed BEFORE
+    the scan (`gcDiscardTs`, `gcActive` are stored first), the first `k` records are judged against
+    the LSM as it is now -/
+def GcDb.gcBeginAt (g : GcDb) (fid k : Nat) : Except GcErr (GcDb × GcRun) :=
+  match g.vl.file? fid with
+  | none => .error .nofile
+  | some f =>
+    if fid ≥ g.vl.maxFid then .error .norewrite
+    else if g.vl.tbd.contains fid then .error .marked
+    else
+      let g1 := { g with gcTs := g.db.lsm.maxVersion, gcActive := true }
+      let irs := zipIdx f.recs
+      .ok (g1, { fid := fid, wb := gcScanPart g.db.lsm g.db.now fid (irs.take k), rest := irs.drop k })
+
+/-- the rest of the scan, judged against the LSM as it is when the scan resumes -/
+def GcDb.gcCont (g : GcDb) (run : GcRun) : GcRun :=
+  { run with wb := run.wb ++ gcScanPart g.db.lsm g.db.now run.fid run.rest, rest := [] }
 
 /-- phase 3: unlink now iff no iterator is open -/
 def Vlog.gcDelete (vl : Vlog) (fid : Nat) : Vlog × Bool :=
